@@ -7,6 +7,7 @@ package main
 import (
 	"fmt"
 	"math/big"
+	"strconv"
 	"strings"
 )
 
@@ -109,59 +110,96 @@ type Term struct {
 	// variables
 	Name string
 	id   int
-	key  string
 }
 
 func (t *Term) IsConst() bool { return t.Op == OpConst }
 
 // Ctx owns the hash-cons table; one per path execution.
 type Ctx struct {
-	tab    map[string]*Term
+	tab    map[termKey]*Term
 	nextID int
 	tT, tF *Term
 	vars   []*Term
+	bvTab  map[bvKey]*Term
 }
 
 func NewCtx() *Ctx {
-	c := &Ctx{tab: map[string]*Term{}}
-	c.tT = c.intern(&Term{Op: OpConst, Sort: sortBool, CB: true})
-	c.tF = c.intern(&Term{Op: OpConst, Sort: sortBool, CB: false})
+	c := &Ctx{tab: map[termKey]*Term{}, bvTab: map[bvKey]*Term{}}
+	c.Reset()
 	return c
 }
 
+// Reset empties the context for the next path (keeps the tables' capacity).
+func (c *Ctx) Reset() {
+	if len(c.tab) > 8192 || len(c.bvTab) > 8192 {
+		// clearing a map that once grew large costs its full capacity every time
+		c.tab, c.bvTab = map[termKey]*Term{}, map[bvKey]*Term{}
+	} else {
+		clear(c.tab)
+		clear(c.bvTab)
+	}
+	c.nextID = 0
+	c.vars = nil
+	c.tT = c.intern(&Term{Op: OpConst, Sort: sortBool, CB: true})
+	c.tF = c.intern(&Term{Op: OpConst, Sort: sortBool, CB: false})
+}
+
+type termKey struct {
+	op         Op
+	k          SortKind
+	w, a, b    int32
+	cv         uint64
+	s          string
+	n          int32
+	a0, a1, a2 int32
+}
+
 func (c *Ctx) intern(t *Term) *Term {
-	var sb strings.Builder
-	fmt.Fprintf(&sb, "%d|%d.%d|%d.%d|", t.Op, t.Sort.K, t.Sort.W, t.A, t.B)
+	k := termKey{op: t.Op, k: t.Sort.K, w: int32(t.Sort.W), a: int32(t.A), b: int32(t.B), n: int32(len(t.Args))}
 	switch t.Op {
 	case OpConst:
 		switch t.Sort.K {
 		case SBool:
 			if t.CB {
-				sb.WriteString("T")
-			} else {
-				sb.WriteString("F")
+				k.cv = 1
 			}
 		case SBV:
 			if t.Sort.W <= 64 {
-				fmt.Fprintf(&sb, "%x", t.CV)
+				k.cv = t.CV
 			} else {
-				sb.WriteString(t.CI.Text(16))
+				k.s = t.CI.Text(16)
 			}
 		case SInt:
-			sb.WriteString(t.CI.Text(16))
+			if t.CI.IsInt64() {
+				k.cv = uint64(t.CI.Int64())
+				k.n = -1
+			} else {
+				k.s = t.CI.Text(16)
+			}
 		}
 	case OpVar:
-		sb.WriteString(t.Name)
+		k.s = t.Name
 	default:
-		for _, a := range t.Args {
-			fmt.Fprintf(&sb, "%d,", a.id)
+		switch len(t.Args) {
+		case 0:
+		case 1:
+			k.a0 = int32(t.Args[0].id)
+		case 2:
+			k.a0, k.a1 = int32(t.Args[0].id), int32(t.Args[1].id)
+		case 3:
+			k.a0, k.a1, k.a2 = int32(t.Args[0].id), int32(t.Args[1].id), int32(t.Args[2].id)
+		default:
+			buf := make([]byte, 0, 4*len(t.Args))
+			for _, a := range t.Args {
+				buf = strconv.AppendInt(buf, int64(a.id), 36)
+				buf = append(buf, ',')
+			}
+			k.s = string(buf)
 		}
 	}
-	k := sb.String()
 	if e, ok := c.tab[k]; ok {
 		return e
 	}
-	t.key = k
 	t.id = c.nextID
 	c.nextID++
 	c.tab[k] = t
@@ -182,11 +220,24 @@ func maskW(w int) uint64 {
 	return (uint64(1) << uint(w)) - 1
 }
 
+type bvKey struct {
+	w int
+	v uint64
+}
+
 func (c *Ctx) BV(w int, v uint64) *Term {
 	if w > 64 {
 		return c.BVBig(w, new(big.Int).SetUint64(v))
 	}
-	return c.intern(&Term{Op: OpConst, Sort: bvSort(w), CV: v & maskW(w)})
+	v &= maskW(w)
+	k := bvKey{w, v}
+	if t, ok := c.bvTab[k]; ok {
+		return t
+	}
+	t := &Term{Op: OpConst, Sort: bvSort(w), CV: v, id: c.nextID}
+	c.nextID++
+	c.bvTab[k] = t
+	return t
 }
 
 func (c *Ctx) BVBig(w int, v *big.Int) *Term {
